@@ -340,7 +340,9 @@ def vacuity(st):
 
 def run(tier, seed):
     t0 = time.time()
+    n_self = au.selftest()
     st = explore(MODULE, tier, seed)
+    st.extra["automaton_selftest_comparisons"] = n_self
     return finish(
         ID, "model_checking", MODULE, tier, seed, st, t0,
         rule=("every dep5 pattern python-debian accepts over {a . / * ? \\} up to the length bound (and pairs of patterns of length <= 2): product of the "
